@@ -237,6 +237,28 @@ class Prop:
         return []
 
 
+import contextlib  # noqa: E402
+
+
+@contextlib.contextmanager
+def debug_logging():
+    """run the block with the library's logger enabled at DEBUG (output discarded)"""
+    lg = logging.getLogger("nxslib")
+    old_level, old_prop, old_disable = lg.level, lg.propagate, logging.root.manager.disable
+    h = logging.NullHandler()
+    lg.addHandler(h)
+    lg.setLevel(logging.DEBUG)
+    lg.propagate = False
+    logging.disable(logging.NOTSET)
+    try:
+        yield
+    finally:
+        logging.disable(old_disable)
+        lg.setLevel(old_level)
+        lg.propagate = old_prop
+        lg.removeHandler(h)
+
+
 def load_known():
     p = os.path.join(ROOT, "known_findings.json")
     try:
@@ -453,6 +475,25 @@ def run_check(prop: Prop, tier: str, seed: int) -> int:
                 violations += prop.deep_search(rng) or []
             except Exception:
                 broken.append(("deep-search", traceback.format_exc()[-600:]))
+        if broken and not violations:
+            # a configuration dimension of the process: the library's logger at DEBUG (code under `isEnabledFor(DEBUG)`
+            # only runs then); the oracle judges a bounded share of the pool again
+            with debug_logging():
+                for l in pool[:300]:
+                    oracle_runs += 1
+                    try:
+                        v = prop.oracle(l)
+                    except (KeyboardInterrupt, SystemExit):
+                        raise
+                    except BaseException as e:  # noqa: BLE001
+                        v = {"key": "oracle-exception", "what": f"oracle raised {type(e).__name__}: {e}", "case": l}
+                    if v:
+                        v.setdefault("case", l)
+                        v["what"] = "with the `nxslib` logger at DEBUG: " + str(v.get("what", ""))
+                        v["environment"] = "logging.getLogger('nxslib').setLevel(logging.DEBUG)"
+                        violations.append(v)
+                        if len(violations) >= 3:
+                            break
     cov["oracle_runs"] = oracle_runs
 
     # 6 report
